@@ -76,7 +76,7 @@ def run(e: Engine, rep: Report):
              'and EOD only - not by reader state that is set from the '
              'fragment being added')
     r57(e, rep)
-    rep.floor('R5.1', 4, 'sentinel tests and rewrite sites')
+    rep.floor('R5.1', 2, 'sentinel tests and rewrite sites')
     rep.floor('R5.3', 5, 'hand-over obligations')
 
 
@@ -252,7 +252,10 @@ def r55(e: Engine, rep: Report):
 
 def r56(e: Engine, rep: Report):
     ctx = e.method_ctx(READER, 'add_lines')
-    g = e.build(ctx, raises=lambda b, n, r: set())
+    g = e.build(ctx, raises=lambda b, n, r: set(),
+                inline=e.inline_same_self(deny=[
+                    'handle_finished_line', '_count_size', '_append_line']),
+                max_depth=3)
     where = ctx.func.qname
     rep.functions.add(where)
     loops = [n for n in g.of_kind('iter') if isinstance(n.ast, ast.For) and
